@@ -7,6 +7,7 @@ package main
 import (
 	"context"
 	"errors"
+	"fmt"
 	"math"
 	"math/rand"
 	"runtime"
@@ -26,18 +27,22 @@ import (
 )
 
 var extraScale = map[string]func(c *Case, res map[string]any, fail func(string, ...any)){
-	"tree-gc":              scaleTreeGC,
-	"mapstream-close-busy": scaleMapStreamCloseBusy,
-	"mapstream-ferr-storm": scaleMapStreamFerrStorm,
-	"pipe-trysend-storm":   scalePipeTrySendStorm,
-	"pipe-idle-next":       scalePipeIdleNext,
-	"chans-merge-iface":    scaleChansMergeIface,
-	"deque-gc":             scaleDequeGC,
-	"watchable-nil":        scaleWatchableNil,
-	"lazy-panic":           scaleLazyPanic,
-	"xmap-swap-storm":      scaleXMapSwapStorm,
-	"do-empty":             scaleDoEmpty,
-	"pq-nan-keys":          scalePQNaNKeys,
+	"tree-gc":                 scaleTreeGC,
+	"mapstream-close-busy":    scaleMapStreamCloseBusy,
+	"mapstream-ferr-storm":    scaleMapStreamFerrStorm,
+	"pipe-trysend-storm":      scalePipeTrySendStorm,
+	"pipe-idle-next":          scalePipeIdleNext,
+	"chans-merge-iface":       scaleChansMergeIface,
+	"deque-gc":                scaleDequeGC,
+	"watchable-nil":           scaleWatchableNil,
+	"lazy-panic":              scaleLazyPanic,
+	"xmap-swap-storm":         scaleXMapSwapStorm,
+	"do-empty":                scaleDoEmpty,
+	"pq-nan-keys":             scalePQNaNKeys,
+	"pipe-two-instances":      scalePipeTwoInstances,
+	"chans-merge-concurrent":  scaleChansMergeConcurrent,
+	"mapstream-two-instances": scaleMapStreamTwoInstances,
+	"do-nested-last":          scaleDoNestedLast,
 }
 
 // ---- C03: keys and values that were deleted or moved elsewhere can be garbage collected.
@@ -865,5 +870,191 @@ func scalePQNaNKeys(c *Case, res map[string]any, fail func(string, ...any)) {
 	}
 	if p, _ := protect(func() { q.Pop() }); !p {
 		fail("Pop on the drained queue did not panic")
+	}
+}
+
+// ---- two instances alive at the same time must not influence each other (state kept in package-level variables,
+// pools or shared scratch buffers shows only then)
+
+func scalePipeTwoInstances(c *Case, res map[string]any, fail func(string, ...any)) {
+	ctx := context.Background()
+	boom := errors.New("boom")
+	for round := 0; round < 2; round++ {
+		sa, ra := stream.Pipe[int](1)
+		sb, rb := stream.Pipe[int](1)
+		if round == 0 {
+			sa.Close(boom)
+			if _, err := ra.Next(ctx); err != boom {
+				fail("pipe A closed with an error reports %v", err)
+			}
+			sb.Close(nil)
+			if _, err := rb.Next(ctx); err != stream.End {
+				fail("pipe B closed with nil reports %v", err)
+			}
+			if _, err := ra.Next(ctx); err != boom {
+				fail("pipe A reported its close error, then - after another pipe was closed with nil - reports %v", err)
+			}
+		} else {
+			sa.Close(nil)
+			if _, err := ra.Next(ctx); err != stream.End {
+				fail("pipe A closed with nil reports %v", err)
+			}
+			sb.Close(boom)
+			if _, err := rb.Next(ctx); err != boom {
+				fail("pipe B closed with an error reports %v", err)
+			}
+			if _, err := ra.Next(ctx); err != stream.End {
+				fail("pipe A reported the end, then - after another pipe was closed with an error - reports %v", err)
+			}
+		}
+		ra.Close()
+		rb.Close()
+	}
+}
+
+func scaleChansMergeConcurrent(c *Case, res map[string]any, fail func(string, ...any)) {
+	nin := num(c.Cfg["n"])
+	rounds := num(c.Cfg["rounds"])
+	for r := 0; r < rounds; r++ {
+		var wg sync.WaitGroup
+		bad := make(chan string, 8)
+		for m := 0; m < 3; m++ {
+			wg.Add(1)
+			go func(m int) {
+				defer wg.Done()
+				ins := make([]<-chan int, nin)
+				for i := range ins {
+					ch := make(chan int, 4)
+					for j := 0; j < 4; j++ {
+						ch <- m*1000000 + i*100 + j
+					}
+					close(ch)
+					ins[i] = ch
+				}
+				out := make(chan int, nin*4+1)
+				done := make(chan struct{})
+				go func() {
+					defer func() {
+						if p := recover(); p != nil {
+							bad <- fmt.Sprint("Merge panicked: ", p)
+						}
+						close(done)
+					}()
+					chans.Merge(out, ins...)
+				}()
+				select {
+				case <-done:
+				case <-time.After(10 * time.Second):
+					bad <- "Merge did not return within 10s although all its inputs were closed"
+					return
+				}
+				seen := map[int]int{}
+				for len(out) > 0 {
+					seen[<-out]++
+				}
+				for i := 0; i < nin; i++ {
+					for j := 0; j < 4; j++ {
+						if seen[m*1000000+i*100+j] != 1 {
+							bad <- fmt.Sprintf("one of three concurrent Merge calls over %d inputs delivered value %d %d times", nin, m*1000000+i*100+j, seen[m*1000000+i*100+j])
+							return
+						}
+					}
+				}
+				if len(seen) != nin*4 {
+					bad <- fmt.Sprintf("one of three concurrent Merge calls delivered %d distinct values, %d were sent (values of another call?)", len(seen), nin*4)
+				}
+			}(m)
+		}
+		wg.Wait()
+		select {
+		case msg := <-bad:
+			fail("round %d: %s", r, msg)
+			return
+		default:
+		}
+	}
+}
+
+func scaleMapStreamTwoInstances(c *Case, res map[string]any, fail func(string, ...any)) {
+	mk := func(base, n int) stream.Stream[int] {
+		items := make([]int, n)
+		for i := range items {
+			items[i] = base + i
+		}
+		return parallel.MapStream[int, int](context.Background(), stream.FromIterator(iterator.Slice(items)), 2, 2,
+			func(ctx context.Context, x int) (int, error) { return x * 2, nil })
+	}
+	a, b := mk(0, 5), mk(100, 9)
+	ctx, cancel := context.WithTimeout(context.Background(), 5*time.Second)
+	defer cancel()
+	na, nb := 0, 0
+	enda, endb := false, false
+	for !(enda && endb) {
+		if !enda {
+			v, err := a.Next(ctx)
+			if err == stream.End {
+				enda = true
+			} else if err != nil {
+				fail("two MapStreams consumed alternately: the first returned %v after %d results", err, na)
+				break
+			} else if v != na*2 {
+				fail("first MapStream: result %d is %d", na, v)
+				break
+			} else {
+				na++
+			}
+		}
+		if !endb {
+			v, err := b.Next(ctx)
+			if err == stream.End {
+				endb = true
+			} else if err != nil {
+				fail("two MapStreams consumed alternately: the second returned %v after %d results (of 9)", err, nb)
+				break
+			} else if v != (100+nb)*2 {
+				fail("second MapStream: result %d is %d", nb, v)
+				break
+			} else {
+				nb++
+			}
+		}
+	}
+	a.Close()
+	b.Close()
+	if res["ok"].(bool) && (na != 5 || nb != 9) {
+		fail("two MapStreams consumed alternately delivered %d of 5 and %d of 9 results", na, nb)
+	}
+}
+
+// a second, smaller Do started from the LAST callback of a Do that is still running
+func scaleDoNestedLast(c *Case, res map[string]any, fail func(string, ...any)) {
+	for _, useMap := range []bool{false, true} {
+		n := 8
+		counts := make([]int32, n)
+		inner := func() {
+			parallel.Do(2, 2, func(i int) { time.Sleep(time.Millisecond) })
+		}
+		f := func(i int) {
+			atomic.AddInt32(&counts[i], 1)
+			if i == n-1 {
+				time.Sleep(20 * time.Millisecond) // the other workers have run out of indices by now
+				inner()
+			}
+		}
+		if useMap {
+			in := make([]int, n)
+			for i := range in {
+				in[i] = i
+			}
+			parallel.Map(2, in, func(i int) int { f(i); return i })
+		} else {
+			parallel.Do(2, n, f)
+		}
+		for i, k := range counts {
+			if k != 1 {
+				fail("Do(2, %d, f) whose last callback runs another Do: f(%d) was called %d times (via Map: %v)", n, i, k, useMap)
+				return
+			}
+		}
 	}
 }
